@@ -14,6 +14,8 @@ import random
 import concurrent.futures as cf
 
 VERIF = os.path.dirname(os.path.dirname(os.path.abspath(__file__)))
+# evidence and replay files go to /verif unless redirected (runs against seeded changes must not overwrite the committed evidence)
+OUT = os.environ.get("VERIF_OUT", VERIF)
 SPEC = os.path.join(VERIF, "spec")
 TLA_CP = "/opt/veriftools/tla/tla2tools.jar:/opt/veriftools/tla/CommunityModules-deps.jar"
 NCPU = os.cpu_count() or 4
@@ -230,7 +232,7 @@ class Ctx:
         self.level = "model_checking"
         self.findings = load_findings(prop)
         if not replay:
-            shutil.rmtree(os.path.join(VERIF, "replays", prop), ignore_errors=True)
+            shutil.rmtree(os.path.join(OUT, "replays", prop), ignore_errors=True)
         self.notes = []
 
     # -- logging
@@ -331,9 +333,9 @@ class Ctx:
                     self.known_hits.setdefault(signature, [0, f, record])
                     self.known_hits[signature][0] += 1
                     return "known"
-        os.makedirs(os.path.join(VERIF, "replays", self.prop), exist_ok=True)
+        os.makedirs(os.path.join(OUT, "replays", self.prop), exist_ok=True)
         safe = re.sub(r"[^A-Za-z0-9_.-]", "_", str(case_id))[:80]
-        path = os.path.join(VERIF, "replays", self.prop, "%s.json" % safe)
+        path = os.path.join(OUT, "replays", self.prop, "%s.json" % safe)
         if len(self.violations) < 25:
             with open(path, "w") as f:
                 json.dump({"property": self.prop, "case": case_id, "clause": clause, "signature": signature,
@@ -355,8 +357,8 @@ class Ctx:
         ev = {"property_id": self.prop, "tier": self.tier, "seed": self.seed, "level": self.level,
               "coverage": cov, "assumptions": self.assumptions, "wall_s": round(time.time() - self.t0, 2),
               "violations": len(self.violations), "notes": self.notes}
-        os.makedirs(os.path.join(VERIF, "evidence"), exist_ok=True)
-        with open(os.path.join(VERIF, "evidence", "%s.json" % self.prop), "w") as f:
+        os.makedirs(os.path.join(OUT, "evidence"), exist_ok=True)
+        with open(os.path.join(OUT, "evidence", "%s.json" % self.prop), "w") as f:
             json.dump(ev, f, indent=1, default=str)
         shutil.rmtree(self.scratch, ignore_errors=True)
         self.log("done: evaluations=%d nontrivial=%d states=%d traces=%d drift=%d violations=%d known=%d wall=%.1fs" % (
